@@ -37,6 +37,8 @@ struct Spendable {
     mature: bool,
     /// locked by the real secp256k1_blake160_sighash_all script (key 0): spending it needs a valid signature
     secp: bool,
+    /// block that committed the cell; None = output of a pending (not committed) transaction
+    created: Option<u64>,
 }
 
 /// Sign `tx` for its secp-locked inputs (`secp_inputs[i]` tells whether input i is one; all of them share one lock, hence one
@@ -96,7 +98,7 @@ pub fn run(cfg: &RunCfg, out: &Out) {
     }
 }
 
-fn base_tx(rng: &mut Rng, pool: &mut Vec<Spendable>, dep: &CellDep, secp_deps: &Option<(CellDep, CellDep)>, lock: &Script, n_in: usize) -> Option<(TransactionView, u64, bool, Vec<bool>)> {
+fn base_tx(rng: &mut Rng, pool: &mut Vec<Spendable>, dep: &CellDep, secp_deps: &Option<(CellDep, CellDep)>, lock: &Script, n_in: usize) -> Option<(TransactionView, u64, bool, Vec<bool>, Vec<Option<u64>>)> {
     if pool.len() < n_in {
         return None;
     }
@@ -104,12 +106,14 @@ fn base_tx(rng: &mut Rng, pool: &mut Vec<Spendable>, dep: &CellDep, secp_deps: &
     let mut total = 0u64;
     let mut mature = true;
     let mut flags = vec![];
+    let mut created = vec![];
     for _ in 0..n_in {
         let i = rng.pick_idx(pool.len());
         let s = pool.remove(i);
         total += s.capacity;
         mature &= s.mature;
         flags.push(s.secp);
+        created.push(s.created);
         b = b.input(CellInput::new(s.op, 0));
     }
     if let (true, Some((code, data))) = (flags.iter().any(|x| *x), secp_deps) {
@@ -130,7 +134,7 @@ fn base_tx(rng: &mut Rng, pool: &mut Vec<Spendable>, dep: &CellDep, secp_deps: &
         let l = if secp_deps.is_some() && rng.chance(1, 2) { super::super::chain::secp_lock(0) } else { lock.clone() };
         b = b.output(CellOutput::new_builder().capacity(Capacity::shannons(each).pack()).lock(l).build()).output_data(Bytes::new().pack());
     }
-    Some((b.build(), each, mature, flags))
+    Some((b.build(), each, mature, flags, created))
 }
 
 fn mutate_tx(rng: &mut Rng, tx: &TransactionView, chain: &Chain, tip: u64, max_bytes: u64) -> (TransactionView, &'static str) {
@@ -285,6 +289,7 @@ fn scenario(seed: u64, k: u64, out: &Out) {
                         cb <= tip_epoch.to_rational()
                     },
                     secp: is_secp,
+                    created: Some(c.block),
                 });
             }
         }
@@ -361,7 +366,7 @@ fn scenario(seed: u64, k: u64, out: &Out) {
         }
         // a valid base transaction (sometimes spending the output of a pending one)
         let n_in = rng.range(1, 2) as usize;
-        let (tx, each, mature, flags) = match base_tx(&mut rng, &mut pool, &dep, &secp_deps, &lock, n_in) {
+        let (tx, each, mature, flags, created) = match base_tx(&mut rng, &mut pool, &dep, &secp_deps, &lock, n_in) {
             Some(x) => x,
             None => continue,
         };
@@ -384,6 +389,26 @@ fn scenario(seed: u64, k: u64, out: &Out) {
             (t, op, false)
         } else if !mature {
             (sign_tx(&tx, &flags, 0), "cellbase-immature", false)
+        } else if rng.chance(1, 3) {
+            // `since` on one input, in cases whose verdict is clear of the boundary (the client verifies against its stored tip plus the
+            // proposal window): absolute / relative block number, absolute epoch; relative to a committed cell or to the output of a
+            // PENDING transaction (no block yet: a relative lock on it cannot be satisfied, whatever its value)
+            let ii = rng.pick_idx(created.len());
+            const REL: u64 = 1 << 63;
+            const EPOCH: u64 = 1 << 61;
+            let (since, name, ok): (u64, &str, bool) = match (created[ii], rng.below(6)) {
+                (None, 0..=2) => (REL | rng.range(0, 3), "since-relative-number-on-the-output-of-a-pending-transaction", false),
+                (None, 3) => (REL | EPOCH | ckb_types::core::EpochNumberWithFraction::new(0, 0, 1).full_value(), "since-relative-epoch-on-the-output-of-a-pending-transaction", false),
+                (Some(c), 0) if c <= tip => (REL | rng.range(0, tip - c), "since-relative-number-satisfied", true),
+                (Some(c), 1) => (REL | (tip.saturating_sub(c) + rng.range(10, 1000)), "since-relative-number-unsatisfied", false),
+                (_, 4) => (EPOCH | ckb_types::core::EpochNumberWithFraction::new(tip_epoch.number() + rng.range(3, 50), 0, 1).full_value(), "since-absolute-epoch-unsatisfied", false),
+                (_, 5) => (EPOCH | ckb_types::core::EpochNumberWithFraction::new(tip_epoch.number().saturating_sub(rng.range(1, 3)).min(tip_epoch.number()), 0, 1).full_value(), "since-absolute-epoch-satisfied", tip_epoch.number() >= 1),
+                _ => (rng.range(0, tip), "since-absolute-number-satisfied", true),
+            };
+            let mut i2: Vec<CellInput> = tx.inputs().into_iter().collect();
+            i2[ii] = CellInput::new(i2[ii].previous_output(), since);
+            let t = tx.as_advanced_builder().set_inputs(i2).build();
+            (sign_tx(&t, &flags, 0), name, ok)
         } else {
             (sign_tx(&tx, &flags, 0), if has_secp { "valid-signed" } else { "valid" }, true)
         };
@@ -428,7 +453,7 @@ fn scenario(seed: u64, k: u64, out: &Out) {
                 if is_secp {
                     secp_ops.insert(op.clone());
                 }
-                pool.push(Spendable { op, capacity: each, mature: true, secp: is_secp });
+                pool.push(Spendable { op, capacity: each, mature: true, secp: is_secp, created: None });
             }
             let (st, cycles) = tx_status(&w, &h);
             out.eval(1);
